@@ -2466,7 +2466,7 @@ static void MPSwriteRecord(
 
    if(name1 != nullptr)
    {
-      spxSnprintf(buf, sizeof(buf), "%-8.8s  %.15" SOPLEX_REAL_FORMAT, name1, (Real) value1);
+      spxSnprintf(buf, sizeof(buf), "  %-8.8s  %.15" SOPLEX_REAL_FORMAT, name1, (Real) value1);
       os << buf;
 
       if(name2 != nullptr)
